@@ -2538,6 +2538,22 @@ class Interp:
     def call_body(self, st, body, args, dty, ret_k, site, callee=None, force=False):
         depth = len(st.frames)
         path = body["path"]
+        uf = self.opts.get("uf_calls")
+        if uf and path in uf:
+            # comparison runs: a callee shared by both siblings is an uninterpreted function of its (slice) arguments -
+            # equal arguments give the *same* symbolic result in both runs
+            ks = []
+            for a in args:
+                if isinstance(a, VRegion):
+                    ks.append((a.origin, a.off.key(), a.len.key()))
+                elif isinstance(a, VInt):
+                    ks.append(a.lin.key())
+                else:
+                    ks = None
+                    break
+            if ks is not None:
+                rty = dty if dty is not None else body["locals"][0][0]
+                return ret_k(st, self.materialize(st, rty, ("uf", path, tuple(ks))))
         if not force and depth > self.max_depth and self.is_small_leaf(body):
             force = True
         if not force and depth == self.max_depth + 1 and self.is_guard_fn(body):
